@@ -143,6 +143,19 @@ func TestC07(t *testing.T) {
 				}
 			}(g)
 		}
+		if i%7 == 3 {
+			// an impatient caller gives up on Shutdown (its context has already ended) while deliveries
+			// are queued: that abandons the wait, not the deliveries
+			wg.Add(1)
+			go func() {
+				defer wg.Done()
+				<-start
+				for k := 0; k < 5; k++ {
+					w.Bus.Shutdown(dead)
+					w.Noise()
+				}
+			}()
+		}
 		close(start)
 		wg.Wait()
 		w.Bus.Wait()
